@@ -94,9 +94,10 @@ class MixedNormalAggregator(Aggregator):
         agg = {"loc": mean_loc}
 
         if not self.decomposed_scale:
-            sum_loc_scale = loc**2 + scale**2
+            # Law of total variance: E[scale^2] + E[(loc - E[loc])^2], which (unlike the equivalent
+            # E[loc^2 + scale^2] - E[loc]^2) cannot become negative through cancellation.
             mean_scale = self._np.sqrt(
-                self._np.average(sum_loc_scale, weights=weights, axis=0) - mean_loc**2
+                self._np.average(scale**2 + (loc - mean_loc) ** 2, weights=weights, axis=0)
             )
             agg["scale"] = mean_scale
 
